@@ -1,7 +1,8 @@
 (* Refinement — the link between the faithful net model (NetModel.v) and the reference
    semantics (RefSem.v), proved (not only tested) for a fragment of programs.
    Part 1: what the generator builds, for every program of the fragment (Service / task call /
-   Parallel / Condition with or without a Failed block / While loop, arbitrarily nested).
+   Parallel / Condition with or without a Failed block / While loop / sequential counting loop,
+   arbitrarily nested).
    Statements proved in Refine/GenSpec.v, nothing else here. *)
 From PFDL Require Import NetModel NetRun RunCase.
 From PFDL.Refine Require Import Eval Layout GenSpec Abs Sim Main.
@@ -11,23 +12,24 @@ From PFDL.Refine Require Import Eval Layout GenSpec Abs Sim Main.
    (DESIGN.md Appendix A; [wired]), at the creation indices Layout.v computes; the entering
    transition gains the entry arcs and start callbacks, the following transition gains the exit
    place, and nothing else in the net changes ([Gen]).  [il]: the component lies in a loop body
-   (the API records carry that flag). *)
+   (the API records carry that flag); [k]: the source site of the statement (task name, path),
+   which is the key of a counting loop's counter. *)
 Theorem generator_builds_component :
-  forall s, frag s = true -> forall il ctx t1 t2 ns,
+  forall s, frag s = true -> forall il k ctx t1 t2 ns,
     okns ns -> t1 < List.length (ns_trans ns) -> t2 < List.length (ns_trans ns) ->
-    let p := pos_of ns in
-    exists ns', pg_stmt il ctx s t1 t2 ns = Ok (exits s p, ns') /\
+    let p := pos_of k ns in
+    exists ns', pg_stmt il k ctx s t1 t2 ns = Ok (exits s p, ns') /\
                 Gen ns ns' t1 t2 (entries s p) (startcbs s p ctx) [xplace s p] /\
-                pos_of ns' = adv s p /\ okns ns' /\ wired ns' s p ctx [].
+                pos_of (si_next k) ns' = adv s p /\ okns ns' /\ wired ns' s p ctx [].
 Proof. exact gen_ok. Qed.
 Print Assumptions generator_builds_component.
 
 (* generate_stmt of the implementation model on the source program performs exactly that walk
    over the call-tree unfolding (inlining of called tasks = Unfold.unfold_stmt) *)
 Theorem generator_walks_the_unfolding :
-  forall tasks fu il tn path s x, unfold_stmt tasks fu tn path s = Ok x -> frag x = true ->
+  forall tasks fu il tn pre i s x, unfold_stmt tasks fu tn (pre ++ [i]) s = Ok x -> frag x = true ->
     forall g ctx t1 t2 ns, need x <= g ->
-      generate_stmt tasks g ctx tn path s t1 t2 il ns = pg_stmt il ctx x t1 t2 ns.
+      generate_stmt tasks g ctx tn (pre ++ [i]) s t1 t2 il ns = pg_stmt il (mksi tn pre i) ctx x t1 t2 ns.
 Proof. exact A_stmt. Qed.
 Print Assumptions generator_walks_the_unfolding.
 
@@ -43,35 +45,39 @@ Print Assumptions generator_builds_the_net.
 (* Part 2: the simulation.  Statements proved in Refine/Sim.v and Refine/Main.v. *)
 
 (* starting a component: the start callbacks of the component, run in their registration
-   order on the net, produce the API store, the bookkeeping, the log and the awaited
-   identifiers that RefSem.start_stmt produces *)
+   order on the net, produce the API store, the bookkeeping, the log, the awaited identifiers
+   and the loop counters that RefSem.start_stmt denotes.  [NC]: the program has no counting
+   loop (then nothing is required of parameter lists, see Abs.sok) *)
 Theorem start_simulation :
-  forall tasks env, env_quiet env -> forall orc imm, (forall k, imm k = false) -> ec_orc env = orc ->
-  forall N0 f, StartOK tasks env orc imm N0 f.
+  forall NC tasks env, env_quiet env -> forall orc imm, (forall k, imm k = false) -> ec_orc env = orc ->
+  forall N0 f, StartOK NC tasks env orc imm N0 f.
 Proof. exact start_ok. Qed.
 Print Assumptions start_simulation.
 
 (* delivering a completion: the net fires exactly the transitions that correspond to
    RefSem.deliver and ends in the related state (or at the component's exit transition) *)
 Theorem deliver_simulation :
-  forall tasks env, env_quiet env -> forall orc imm, (forall k, imm k = false) -> ec_orc env = orc ->
-  forall N0 f, DelS tasks env orc imm N0 f.
+  forall NC tasks env, env_quiet env -> forall orc imm, (forall k, imm k = false) -> ec_orc env = orc ->
+  forall N0 f, DelS NC tasks env orc imm N0 f.
 Proof. exact del_ok. Qed.
 Print Assumptions deliver_simulation.
 
 (* whole scripts, from the state after Scheduler(...) *)
 Theorem script_simulation :
-  forall tasks env, env_quiet env -> forall orc imm, (forall k, imm k = false) -> ec_orc env = orc ->
-  forall body N0, NetOf body N0 -> frag_block body = true ->
+  forall NC tasks env, env_quiet env -> forall orc imm, (forall k, imm k = false) -> ec_orc env = orc ->
+  forall body N0, NetOf body N0 -> frag_block body = true -> sok_block NC true body = true ->
   forall fu script sc ns tr,
-    forallb ok_call script = true -> Rel body N0 sc ns ->
+    forallb ok_call script = true -> Rel NC body N0 sc ns ->
     run_script orc imm fu body sc script = Ok tr ->
     exists f0, forall f, f0 <= f -> net_run_script tasks env f ns script = Ok tr.
 Proof. exact script_sim. Qed.
 Print Assumptions script_simulation.
 
-(* THE REFINEMENT THEOREM (stages 1-4 without counting loops: services, task calls, Parallel,
-   Condition with or without a Failed block, While loops, arbitrarily nested -- components may
+(* THE REFINEMENT THEOREM (services, task calls, Parallel, Condition with or without a Failed
+   block, While loops, arbitrarily nested; and sequential counting loops -- constant or queried
+   limit, arbitrarily nested with Conditions / While loops / each other, any of the above in
+   their bodies -- that stand in the production task itself, in programs whose parameter lists
+   do not mention loop indices; see Main.in_fragment.  Components may
    complete at once, inside the evaluation that the callback of a Condition or of a loop opens,
    and loop bodies are entered again with the identifiers of the previous iteration still in the
    API records; every kind of API call in the script; the answers of the variable access
@@ -243,3 +249,39 @@ Proof.
   exists f0. intros f Hf. rewrite Href. apply H. exact Hf.
 Qed.
 Print Assumptions exw_refines.
+
+(* Counting loops (in the production task): a loop with a constant limit whose body is a service
+   and a task call (two iterations); a loop whose limit is queried from the variable access
+   function before every test, with a nested counting loop and a Condition in its body (the test
+   of the Condition fails in the second iteration); a loop with no iteration.  No parameter
+   mentions a loop index. *)
+Definition exl_tasks : list task :=
+  [{| t_name := 0; t_ins := [];
+      t_body := [SCount false 40 (LimInt 2) [SService 31 [PVar 16] []; SCall (cl 17)];
+                 SService 15 [] [];
+                 SCount false 41 (LimPath 30 [PF 4])
+                        [SCount false 42 (LimInt 1) [SService 32 [] []]; SCond (lt3 30) [SService 33 [] []] []];
+                 SCount false 43 (LimInt 0) [SService 34 [] []]];
+      t_outs := [] |};
+   {| t_name := 17; t_ins := []; t_body := [SService 26 [] []]; t_outs := [] |}].
+Definition exl_case : runcase :=
+  {| rc_prog := {| p_structs := []; p_tasks := exl_tasks |};
+     rc_vals := map (fun n => VStruct [(4, VNum (QArith_base.Qmake n 1%positive))]) [2; 1; 2; 7; 2]%Z;
+     rc_imm := [false];
+     rc_script := [AStart; AFinish 0; AFinish 1; AJunk; AFinish 2; AFinish 3; AFinish 3; AFinish 4; AFinish 5; AFinish 6;
+                   AFinish 7];
+     rc_react := [None]; rc_react_all := false; rc_mutate := 0; rc_test_ids := true |}.
+
+Example exl_in_fragment : in_fragment exl_case = true.
+Proof. vm_compute. reflexivity. Qed.
+
+Example exl_runs : exists tr, run_ref exl_case = Ok tr /\ List.length tr = 11 /\ existsb (fun r => cr_final r) tr = true
+                              /\ run_net exl_case = Ok tr.
+Proof. eexists. split; [vm_compute; reflexivity|]. split; [reflexivity|]. split; [reflexivity|]. vm_compute. reflexivity. Qed.
+
+Example exl_refines : exists f0, forall f, f0 <= f -> run_net_f f exl_case = run_ref exl_case.
+Proof.
+  destruct exl_runs as (tr & Href & _). destruct (Main.net_refines_ref_fragment exl_case exl_in_fragment tr Href) as [f0 H].
+  exists f0. intros f Hf. rewrite Href. apply H. exact Hf.
+Qed.
+Print Assumptions exl_refines.
